@@ -1104,7 +1104,12 @@ class Context:
                 bytecode_module = compiler.compile(ast)
 
                 vm = ctx._nested_vm()
-                return vm.run(bytecode_module)
+                outer_vm = ctx._current_vm
+                ctx._current_vm = vm
+                try:
+                    return vm.run(bytecode_module)
+                finally:
+                    ctx._current_vm = outer_vm
             except (TimeLimitError, MemoryLimitError):
                 raise
             except Exception as e:
@@ -1246,6 +1251,10 @@ class Context:
         vm.globals = self._globals
         if self._current_vm is not None:
             vm.start_time = self._current_vm.start_time
+            # Nested code recurses on the host stack like a callback does
+            self._current_vm._enter_native()
+            self._current_vm.native_depth -= 1
+            vm.native_depth = self._current_vm.native_depth + 1
         return vm
 
     def _call_function(self, func: JSFunction, args: list) -> Any:
